@@ -374,7 +374,7 @@ void DetectorErrorModel::append_from_text(std::string_view text) {
     model_read_operations(
         *this,
         [&]() {
-            return k < text.size() ? text[k++] : EOF;
+            return k < text.size() ? (int)(unsigned char)text[k++] : EOF;
         },
         DEM_READ_CONDITION::DEM_READ_UNTIL_END_OF_FILE);
 }
